@@ -261,6 +261,8 @@ func builtinArraySlice(call FunctionCall) Value {
 		from := arrayIndexToString(index + start)
 		if thisObject.hasProperty(from) {
 			sliceValueArray[index] = thisObject.get(from)
+		} else {
+			sliceValueArray[index] = emptyValue
 		}
 	}
 
